@@ -494,7 +494,11 @@ func genCCFB(r *rng, sz int) *rtcp.CCFeedbackReport {
 			b.MetricBlocks = make([]rtcp.CCFeedbackMetricBlock, nm)
 			for j := range b.MetricBlocks {
 				if r.chance(3) {
-					continue // not received
+					// not received; a third of these keep stale ECN / offset values (the encoder must ignore them, not erase them)
+					if r.chance(3) {
+						b.MetricBlocks[j] = rtcp.CCFeedbackMetricBlock{Received: false, ECN: rtcp.ECN(r.intn(4)), ArrivalTimeOffset: uint16(r.intn(0x2000))}
+					}
+					continue
 				}
 				b.MetricBlocks[j] = rtcp.CCFeedbackMetricBlock{Received: true, ECN: rtcp.ECN(r.intn(4)), ArrivalTimeOffset: uint16(r.intn(0x2000))}
 				if r.chance(16) {
